@@ -251,6 +251,14 @@ def c10_violation(case, history=()):
         return f"impure: fresh object says {fresh}, object with call history says {used}"
     if crit == "never-merge" and fresh:
         return "never-merge accepted"
+    # the same sums and counts handed over as uint64 arrays (the tree stores them in the narrowest width that
+    # holds the count; the value of the criterion may not depend on that representation)
+    wide = bool(M.get_merge_accept_fn(crit, 0.05 if tol is None else tol)(
+        thr, np.array([a + b for a, b in zip(old, nom)], dtype=np.uint64), old_n + nom_n,
+        np.array(old, dtype=np.uint64), np.array(nom, dtype=np.uint64), old_n, nom_n))
+    if wide != fresh:
+        return (f"not a function of the sums and counts: {fresh} with the sums in their narrowest unsigned "
+                f"dtype, {wide} with the same sums as uint64")
     new = np.array([a + b for a, b in zip(old, nom)], dtype=np.uint64)
     new_n = old_n + nom_n
     stat = S.jt_isim_radius_compl_from_sum if "radius" in crit else S.jt_isim_from_sum
@@ -323,6 +331,28 @@ def search_c10(seed, tier, failures):
                         if v:
                             return {"case": list(c), "history": [list(x) for j, x in enumerate(cs) if j != i],
                                     "violation": v}
+    import bblean.similarity as S
+    # counts at the top of a counter width (255 / 65535 members, as old or as merged cluster) with columns set in
+    # ALL members: narrow-width arithmetic on the stored sums wraps exactly there
+    for _ in range(200 if tier == "quick" else 2000):
+        nfeat = rng.choice([3, 5, 8, 30])
+        top = rng.choice([255, 255, 65535])
+        nom_n = rng.choice([1, 1, 2, 60])
+        old_n = rng.choice([top, top, top - nom_n, top - 1, top + 1])
+        full = rng.randint(1, max(1, nfeat // 2))
+        old = [old_n] * full + [rng.choice([0, old_n // 2, old_n - 1, rng.randint(0, old_n)]) for _ in range(nfeat - full)]
+        nom = [rng.choice([nom_n, nom_n, 0, rng.randint(0, nom_n)]) for _ in range(nfeat)]
+        new = np.array([a + b for a, b in zip(old, nom)], dtype=np.uint64)
+        a = float(S.jt_isim_from_sum(new, old_n + nom_n))
+        b = float(S.jt_isim_radius_compl_from_sum(new, old_n + nom_n))
+        for thr in (0.1, 0.3, a, b, float(np.nextafter(min(a, b), -1.0))):
+            if not (0.0 <= thr <= 1.0):
+                continue
+            for crit in hist.CRITS:
+                c = (crit, 0.05 if crit in hist.HAS_TOL else None, thr, old, old_n, nom, nom_n)
+                v = c10_violation(c)
+                if v:
+                    return {"case": list(c), "history": [], "violation": v}
     # thresholds placed around the two statistics of the merged cluster (sparse, incoherent
     # clusters separate iSIM and radius complement the most)
     import bblean.similarity as S
